@@ -66,9 +66,9 @@ Record clean_failure h h' : Prop := mkCF {
 }.
 
 Lemma clean_failure_refl h : clean_failure h h.
-Proof. constructor; try done; [lia|by exists []]. Qed.
+Proof. constructor; try done; try lia; by exists []. Qed.
 Lemma clean_failure_bump h : clean_failure h (bump h).
-Proof. constructor; cbn; try done; [lia|lia|by exists []]. Qed.
+Proof. constructor; cbn; try done; try lia; by exists []. Qed.
 Lemma clean_failure_trans h1 h2 h3 : clean_failure h1 h2 -> clean_failure h2 h3 -> clean_failure h1 h3.
 Proof.
   intros [A1 A2 A3 A4 A5 A6 A7 A8 [e1 A9]] [B1 B2 B3 B4 B5 B6 B7 B8 [e2 B9]]. constructor.
@@ -206,15 +206,15 @@ Lemma run_st_str_plain h b (old s : bytes) :
   b ∈ h_live h -> h_str h !! b = Some old -> h_own h !! b = Some Lib -> length s = length old ->
   st_str (Some b) s h = Ret (tt, set_str h (<[b := s]> (h_str h))).
 Proof.
-  intros H1 H2 H3 H4. unfold st_str, chk, bindM. rewrite decide_True by done. rewrite H2, H3.
+  intros H1 H2 H3 H4. unfold st_str, chk, bindM. rewrite decide_True by done. unfold bytes in *. rewrite H2, H3.
   apply Nat.eqb_eq in H4. by rewrite H4.
 Qed.
 
 Lemma cstr_length_lt (s : bytes) : existsb (Z.eqb 0) s = true -> length (cstr s) < length s.
 Proof.
-  induction s as [|c s IH]; cbn; [done|]. destruct (Z.eqb_spec c 0) as [->|Hne].
+  induction s as [|c s IH]; [done|]. cbn [existsb cstr length]. destruct (Z.eqb_spec c 0) as [->|Hne].
   - cbn. lia.
-  - rewrite (proj2 (Z.eqb_neq 0 c)) by lia. cbn. intros H. specialize (IH H). lia.
+  - destruct (Z.eqb_spec 0 c) as [E|_]; [congruence|]. cbn [orb length]. intros H. specialize (IH H). lia.
 Qed.
 
 (** ** a new root without children *)
@@ -299,7 +299,6 @@ Proof.
   - by apply (WF_next_notin _ _ W).
   - rewrite Hs. intros b Hb. by apply elem_of_nil in Hb.
   - rewrite Hs. apply NoDup_singleton.
-  - split; [done|exact Hr].
   - rewrite Hs. cbn. intros b Hb. apply elem_of_cons in Hb as [->|Hb].
     + split; [set_solver|]. split; [by rewrite lookup_insert|lia].
     + pose proof (wf_fresh _ _ W _ Hb). split; [|split].
@@ -319,7 +318,8 @@ Qed.
 Lemma clean_failure_intro h h' F :
   WF h F -> live_below h ->
   (forall b, (b < h_next h)%positive ->
-     h_lnk h' !! b = h_lnk h !! b /\ h_dat h' !! b = h_dat h !! b /\ h_str h' !! b = h_str h !! b /     h_own h' !! b = h_own h !! b /\ (b ∈ h_live h' <-> b ∈ h_live h)) ->
+     h_lnk h' !! b = h_lnk h !! b /\ h_dat h' !! b = h_dat h !! b /\ h_str h' !! b = h_str h !! b /\
+     h_own h' !! b = h_own h !! b /\ (b ∈ h_live h' <-> b ∈ h_live h)) ->
   (forall b, (h_next h <= b)%positive -> h_lnk h' !! b = None /\ h_dat h' !! b = None /\ b ∉ h_live h') ->
   (h_next h <= h_next h')%positive -> h_req h <= h_req h' -> h_hooks h' = h_hooks h ->
   (exists evs, h_trace h' = evs ++ h_trace h) ->
